@@ -73,6 +73,15 @@ def _exprs(atoms, depth):
     for a, b in itertools.product(pool, repeat=2):
       for k in ('any', 'all', 'seq', 'list'):
         nxt.append((k, (a, b)))
+    # a combinator given exactly ONE argument that is itself a sequence: the sequence is one filter ("any of its elements")
+    for a, b in itertools.product(pool[:4], repeat=2):
+      for k in ('all', 'any'):
+        nxt.append((k, (('seq', (a, b)),)))
+        nxt.append((k, (('list', (a, b)),)))
+      nxt.append(('all', (('seq', (a, b, atoms[2])),)))
+    for k in ('all', 'any'):
+      nxt.append((k, (('seq', ()),)))
+      nxt.append((k, (('list', ()),)))
     for a in pool:
       nxt.append(('not', a))
       nxt.append(('all', (a, ('seq', (atoms[0], atoms[2])))))   # a sequence nested directly inside All
